@@ -15,6 +15,7 @@ Inductive G11 : list token -> pexp -> Prop :=
 | G_here : G11 [TDir DHere] PHere
 | G_sizeof k s : G11 [TDir DSizeOf; TLabel k s] (PSizeOf k s)
 | G_label k s : G11 [TLabel k s] (PLabel k s)
+| G_isdef k s : G11 [TDir DIsDef; TLabel k s] (PIsDef k s)
 | G_paren ts e : G0 ts e -> G11 (TSym SyLParen :: ts ++ [TSym SyRParen]) e
 | G_un s o ts e : unop_of_sym s = Some o -> G11 ts e -> G11 (TSym s :: ts) (PUn o e)
 with GL : list optab -> list token -> pexp -> Prop :=
@@ -113,6 +114,8 @@ Proof.
   - (* directive *)
     destruct d; try discriminate.
     + inversion H; subst. exists [TDir DHere]. split; auto. constructor.
+    + destruct ts' as [|t2 ts'']; try discriminate. destruct t2; try discriminate.
+      inversion H; subst. exists [TDir DIsDef; TLabel k s]. split; auto. constructor.
     + destruct ts' as [|t2 ts'']; try discriminate. destruct t2; try discriminate.
       inversion H; subst. exists [TDir DSizeOf; TLabel k s]. split; auto. constructor.
   - (* symbol *)
